@@ -59,11 +59,17 @@ var srs = []srDef{
 	{"wkt/Transverse_Mercator_South_Orientated", `PROJCS["Lo19",GEOGCS["g",DATUM["Neutral_Datum_One",SPHEROID["WGS 84",6378137,298.257223563],TOWGS84[0,0,0]],PRIMEM["Greenwich",0],UNIT["degree",0.0174532925199433]],PROJECTION["Transverse_Mercator_South_Orientated"],PARAMETER["latitude_of_origin",0],PARAMETER["central_meridian",19],PARAMETER["scale_factor",1],PARAMETER["false_easting",0],PARAMETER["false_northing",0],UNIT["metre",1]]`, [][2]float64{{50000, 3700000}, {-20000, 3300000}}},
 	{"wkt/Hotine_Oblique_Mercator", `PROJCS["rso",GEOGCS["g",DATUM["Neutral_Datum_One",SPHEROID["WGS 84",6378137,298.257223563],TOWGS84[0,0,0]],PRIMEM["Greenwich",0],UNIT["degree",0.0174532925199433]],PROJECTION["Hotine_Oblique_Mercator"],PARAMETER["latitude_of_center",4],PARAMETER["longitude_of_center",102.25],PARAMETER["azimuth",323.0257905],PARAMETER["scale_factor",0.99984],PARAMETER["false_easting",804671],PARAMETER["false_northing",0],UNIT["metre",1]]`, [][2]float64{{400000, 300000}, {500000, 600000}}},
 	{"proj4/tmerc_so", "+proj=transverse_mercator_south_orientated +lon_0=19 +k=1 +datum=WGS84", [][2]float64{{50000, 3700000}, {-20000, 3300000}}},
+	// conics and a transverse Mercator without +lat_0 (and +k): whatever the package makes of the omission
+	// (a default, or NaN), it must make the same of it on every call
+	{"lcc/lat_0-omitted", "+proj=lcc +lat_1=49 +lat_2=46 +lon_0=13.333333 +x_0=400000 +y_0=400000 +datum=WGS84", [][2]float64{{400000, 400000}, {250000, 520000}}},
+	{"aea/lat_0-omitted", "+proj=aea +lat_1=50 +lat_2=58.5 +lon_0=-126 +x_0=1000000 +y_0=0 +datum=WGS84", [][2]float64{{1000000, 5500000}, {1200000, 5900000}}},
+	{"eqdc/lat_0-omitted", "+proj=eqdc +lat_1=20 +lat_2=60 +lon_0=-96 +x_0=0 +y_0=0 +datum=WGS84", [][2]float64{{100000, 4400000}, {-300000, 3900000}}},
+	{"tmerc/lat_0+k-omitted", "+proj=tmerc +lon_0=9 +x_0=500000 +y_0=0 +datum=WGS84", [][2]float64{{500000, 5761038}, {414639.5, 4428236.1}}},
 }
 
 // expectFail: every transformation that involves the reference is expected to fail.
 func expectFail(i int) bool {
-	return strings.Contains(srs[i].def, "+nadgrids=@conus") || strings.HasPrefix(srs[i].name, "wkt/Transverse_Mercator_South") || strings.HasPrefix(srs[i].name, "wkt/Hotine") || srs[i].name == "proj4/tmerc_so"
+	return strings.HasSuffix(srs[i].name, "-omitted") || strings.Contains(srs[i].def, "+nadgrids=@conus") || strings.HasPrefix(srs[i].name, "wkt/Transverse_Mercator_South") || strings.HasPrefix(srs[i].name, "wkt/Hotine") || srs[i].name == "proj4/tmerc_so"
 }
 
 func try(f func()) (p string) {
@@ -175,20 +181,20 @@ func main() {
 		return
 	}
 	rep := report.New("C10", tier, "model_checking")
-	rep.Rule = "E2 (stateless, no dedup: closure-captured state cannot be fingerprinted): ALL sequences of up to 4 (thorough 5) operations Build(i,j) / Call(slot, point) over two sets of 5 (6) spatial references parsed once per sequence (set A: 7-parameter tmerc/OSGB36, 3-parameter lcc/potsdam, the registered EPSG:4326 (and EPSG:3857), long/lat with +axis=neu and with +axis=wsu on a 7-parameter datum; set B: three UTM references of which two share a zone on different ellipsoids/datums, EPSG:4326, krovak; set C: Mercator and transverse Mercator pairs that differ only by an omitted +lon_0 / +x_0, EPSG:4326); set D: EPSG:4326, EPSG:3857, a Mercator and a Mercator on the authalic sphere (+R_A) with a third, out-of-domain point each - the pole fails towards Mercator, so sequences contain failing calls, repeated failing calls and calls after a failure); set E: two geographic systems on shifted datums and EPSG:4326 with a latitude of 95 degrees as third point (it fails in the first leg of the WGS84 hop); set F: EPSG:4326, a geographic system whose datum is a grid file (+nadgrids=@conus on Clarke 1866: every call fails after the geocentric leg) and a 7-parameter Bessel Mercator; set G: EPSG:4326 and three references whose projection method is not implemented but whose name contains implemented ones (Transverse_Mercator_South_Orientated, Hotine_Oblique_Mercator): they must fail the same way every time; results (error or coordinates) must be bit-identical, two (set D: three) points per reference; every call must return what a freshly built transformer from freshly parsed definitions returns when called once; the reference values are recomputed after the sweep to detect changes of the registered globals. E1: structure trees of all eight types (vertices on a parabola, so that rings have area; plus members of 1025, 4098 and 5003 (thorough: 16385, 65539) vertices in every flat and nested position, failing call k in {1, 2, n/4+1, n/2, n-1, n} there) x transformers {nil, affine, orientation-reversing affine, fail on the k-th call for every k <= Len}: same type and nesting (*Bounds -> 4-vertex polygon), i-th vertex = t(i-th vertex), input unchanged, error returned, no panic; the same with the input cut from one flat vertex buffer (same output, buffer not written, twice), and the output shares no storage with the input. Non-trivial = sequences that call some transformer at least twice or interleave two transformers."
+	rep.Rule = "E2 (stateless, no dedup: closure-captured state cannot be fingerprinted): ALL sequences of up to 4 (thorough 5) operations Build(i,j) / Call(slot, point) over two sets of 5 (6) spatial references parsed once per sequence (set A: 7-parameter tmerc/OSGB36, 3-parameter lcc/potsdam, the registered EPSG:4326 (and EPSG:3857), long/lat with +axis=neu and with +axis=wsu on a 7-parameter datum; set B: three UTM references of which two share a zone on different ellipsoids/datums, EPSG:4326, krovak; set C: Mercator and transverse Mercator pairs that differ only by an omitted +lon_0 / +x_0, EPSG:4326); set D: EPSG:4326, EPSG:3857, a Mercator and a Mercator on the authalic sphere (+R_A) with a third, out-of-domain point each - the pole fails towards Mercator, so sequences contain failing calls, repeated failing calls and calls after a failure); set E: two geographic systems on shifted datums and EPSG:4326 with a latitude of 95 degrees as third point (it fails in the first leg of the WGS84 hop); set F: EPSG:4326, a geographic system whose datum is a grid file (+nadgrids=@conus on Clarke 1866: every call fails after the geocentric leg) and a 7-parameter Bessel Mercator; set G: EPSG:4326 and three references whose projection method is not implemented but whose name contains implemented ones (Transverse_Mercator_South_Orientated, Hotine_Oblique_Mercator): they must fail the same way every time; set H: EPSG:4326 and three conics and a transverse Mercator without +lat_0 (+k); results (error or coordinates) must be bit-identical, two (set D: three) points per reference; every call must return what a freshly built transformer from freshly parsed definitions returns when called once; the reference values are recomputed after the sweep to detect changes of the registered globals. E1: structure trees of all eight types (vertices on a parabola, so that rings have area; boxes also inverted, i.e. empty with finite corners; plus members of 1025, 4098 and 5003 (thorough: 16385, 65539) vertices in every flat and nested position, failing call k in {1, 2, n/4+1, n/2, n-1, n} there) x transformers {nil, affine, orientation-reversing affine, fail on the k-th call for every k <= Len}: same type and nesting (*Bounds -> 4-vertex polygon), i-th vertex = t(i-th vertex), input unchanged, error returned, no panic; the same with the input cut from one flat vertex buffer (same output, buffer not written, twice), and the output shares no storage with the input. Non-trivial = sequences that call some transformer at least twice or interleave two transformers."
 	// (set, depth) pairs: every sequence up to the depth is enumerated over each set
 	type plan struct {
 		use   []int
 		depth int
 		npts  int // points per reference (3: incl. the out-of-domain point; the pole fails towards Mercator)
 	}
-	plans := []plan{{[]int{0, 1, 2, 4, 5}, 4, 2}, {[]int{6, 8, 9, 2, 7}, 4, 2}, {[]int{10, 11, 12, 13, 2}, 4, 2}, {[]int{2, 3, 10, 14}, 4, 3}, {[]int{15, 16, 2}, 4, 3}, {[]int{2, 17, 18}, 4, 2}, {[]int{2, 19, 20, 21}, 4, 2}}
+	plans := []plan{{[]int{0, 1, 2, 4, 5}, 4, 2}, {[]int{6, 8, 9, 2, 7}, 4, 2}, {[]int{10, 11, 12, 13, 2}, 4, 2}, {[]int{2, 3, 10, 14}, 4, 3}, {[]int{15, 16, 2}, 4, 3}, {[]int{2, 17, 18}, 4, 2}, {[]int{2, 19, 20, 21}, 4, 2}, {[]int{2, 22, 23, 24, 25}, 4, 2}}
 	if tier == "thorough" {
 		plans = []plan{
 			{[]int{0, 1, 2, 3, 4, 5}, 4, 2}, {[]int{6, 8, 9, 2, 7, 3}, 4, 2},
 			{[]int{10, 11, 12, 13, 2, 3}, 4, 2},
 			{[]int{0, 1, 2, 5}, 5, 2}, {[]int{6, 8, 9, 2}, 5, 2}, {[]int{0, 6, 3, 4}, 5, 2}, {[]int{1, 7, 8, 5}, 5, 2}, {[]int{10, 11, 12, 13}, 5, 2},
-			{[]int{2, 3, 10, 14}, 5, 3}, {[]int{15, 16, 2}, 5, 3}, {[]int{2, 17, 18, 1}, 5, 2}, {[]int{2, 19, 20, 21, 3}, 4, 2},
+			{[]int{2, 3, 10, 14}, 5, 3}, {[]int{15, 16, 2}, 5, 3}, {[]int{2, 17, 18, 1}, 5, 2}, {[]int{2, 19, 20, 21, 3}, 4, 2}, {[]int{2, 22, 23, 24, 25}, 5, 2},
 		}
 	}
 	ref := map[[3]int]val{}
@@ -290,6 +296,12 @@ func main() {
 			geomgen.Skel{Kind: geomgen.KCollection, Kids: []geomgen.Skel{line(n), {Kind: geomgen.KPoint}, {Kind: geomgen.KMultiPoint, N: n + 1}}},
 		)
 	}
+	// inverted boxes (Max below Min, finite corners), alone and as members
+	skels = append(skels,
+		geomgen.Skel{Kind: geomgen.KBounds, N: -1},
+		geomgen.Skel{Kind: geomgen.KCollection, Kids: []geomgen.Skel{{Kind: geomgen.KBounds, N: -1}, {Kind: geomgen.KPoint}}},
+		geomgen.Skel{Kind: geomgen.KCollection, Kids: []geomgen.Skel{{Kind: geomgen.KPoint}, {Kind: geomgen.KCollection, Kids: []geomgen.Skel{{Kind: geomgen.KBounds, N: -1}}}}},
+	)
 	var ngeom int64
 	boom := errors.New("transformer failed")
 	enum.Parallel(len(skels), rep.Expired, func(si int) {
